@@ -95,6 +95,20 @@ def run(prop):
     for crate, tag, serves, needs_lock in CRATES:
         if prop not in serves:
             continue
+        if REPO != "/repo":
+            # the harness crates name the repository by absolute path; for a relocated repository (VERIF_REPO) work on a copy
+            reloc = os.path.join(CACHE, "gen", "e1_" + tag)
+            shutil.rmtree(reloc, ignore_errors=True)
+            shutil.copytree(crate, reloc, ignore=shutil.ignore_patterns("target", "Cargo.lock"))
+            for root, _, files in os.walk(reloc):
+                for f in files:
+                    if f.endswith((".rs", ".toml")):
+                        pth = os.path.join(root, f)
+                        txt = open(pth).read()
+                        txt2 = txt.replace('"/repo/', '"%s/' % REPO).replace("../../../cache/", CACHE + "/")
+                        if txt2 != txt:
+                            open(pth, "w").write(txt2)
+            crate = reloc
         lock = os.path.join(crate, "Cargo.lock")
         if needs_lock:
             shutil.copyfile(os.path.join(REPO, "Cargo.lock"), lock)
